@@ -139,8 +139,8 @@ fn any_op() -> Operation {
 /// documented loop on the event list (sorted by x; all x distinct in the templates)
 /// mode 0: the complete sweep (operation Union, no early exit) with symbolic operand tags and return
 /// codes; mode 1: the early-exit rule (operation and box limits symbolic, tags and codes concrete)
-fn stack3(ax: (f64, f64), bx: (f64, f64), cx: (f64, f64), mode: u8) {
-    let (ta, tb, tc): (bool, bool, bool) = if mode == 0 { (kani::any(), kani::any(), kani::any()) } else { (true, false, true) };
+fn stack3(ax: (f64, f64), bx: (f64, f64), cx: (f64, f64), mode: u8, tags: (bool, bool, bool)) {
+    let (ta, tb, tc): (bool, bool, bool) = if mode == 0 { (kani::any(), kani::any(), kani::any()) } else { tags };
     let a = seg_c(c(ax.0, 0.), c(ax.1, 0.), ta, 1);
     let b = seg_c(c(bx.0, 1.), c(bx.1, 1.), tb, 2);
     let cc = seg_c(c(cx.0, 2.), c(cx.1, 2.), tc, 3);
@@ -154,14 +154,35 @@ fn stack3(ax: (f64, f64), bx: (f64, f64), cx: (f64, f64), mode: u8) {
             _ => 50.0,
         }
     };
-    let (smax, cmax) = if mode == 0 { (50.0, 50.0) } else { (pick(kani::any()), pick(kani::any())) };
-    let sb = BoundingBox { min: c(0., 0.), max: c(smax, 2.) };
-    let cb = BoundingBox { min: c(0., 0.), max: c(cmax, 2.) };
+    // mode 1: the exact boxes of the operands (hull of the segments by operand tag), as queue filling computes them
+    let hull = |want: bool| -> (f64, f64) {
+        let mut lo = f64::INFINITY;
+        let mut hi = f64::NEG_INFINITY;
+        if ta == want {
+            lo = lo.min(ax.0);
+            hi = hi.max(ax.1);
+        }
+        if tb == want {
+            lo = lo.min(bx.0);
+            hi = hi.max(bx.1);
+        }
+        if tc == want {
+            lo = lo.min(cx.0);
+            hi = hi.max(cx.1);
+        }
+        (lo, hi)
+    };
+    let _ = pick;
+    let ((smin, smax), (cmin, cmax)) = if mode == 0 { ((-50.0, 50.0), (-50.0, 50.0)) } else { (hull(true), hull(false)) };
+    let sb = BoundingBox { min: c(smin, 0.), max: c(smax, 2.) };
+    let cb = BoundingBox { min: c(cmin, 0.), max: c(cmax, 2.) };
     let mut codes = [0u8; 8];
     let mut i = 0;
     while mode == 0 && i < 4 {
         // only the value 2 changes what subdivide does with a return code
-        codes[i] = if kani::any() { 2 } else { 0 };
+        let k: u8 = kani::any();
+        kani::assume(k < 3);
+        codes[i] = k;
         i += 1;
     }
     unsafe {
@@ -292,12 +313,15 @@ fn stack3(ax: (f64, f64), bx: (f64, f64), cx: (f64, f64), mode: u8) {
         t += 1;
     }
     kani::cover!(mode == 1 || (processed == 6 && ta == tc && ta != tb), "full sweep, outer segments of one operand");
-    kani::cover!(mode == 0 || processed < 6, "early exit taken");
+    kani::cover!(mode == 0 || processed < 6 || op == Operation::Xor, "early exit taken (or: an operation without early exit)");
     kani::cover!(mode == 1 || (processed == 6 && codes[0] == 2), "recomputation after a coincident pair");
     std::mem::forget((a, b, cc, sorted, q));
 }
 macro_rules! sweep_h {
     ($name:ident, $a:expr, $b:expr, $c:expr, $mode:expr) => {
+        sweep_h!($name, $a, $b, $c, $mode, (true, false, true));
+    };
+    ($name:ident, $a:expr, $b:expr, $c:expr, $mode:expr, $tags:expr) => {
         #[kani::proof]
         #[kani::unwind(16)]
         #[kani::stub(crate::splay::SplaySet::insert, set_insert_model)]
@@ -311,13 +335,16 @@ macro_rules! sweep_h {
         #[kani::stub(std::collections::BinaryHeap::pop, super::common::heap_pop_scripted)]
         #[kani::stub(std::collections::BinaryHeap::push, super::common::heap_push_record)]
         fn $name() {
-            stack3($a, $b, $c, $mode)
+            stack3($a, $b, $c, $mode, $tags)
         }
     };
 }
 // middle segment ends first: its removal makes the outer two neighbours
 sweep_h!(sweep_protocol_mid_removed, (0., 10.), (1., 5.), (2., 11.), 0);
-sweep_h!(sweep_early_exit, (0., 10.), (1., 5.), (2., 11.), 1);
+// early exit with the operands' exact boxes: subject A, C and clipping B (ends first)
+sweep_h!(sweep_early_exit, (0., 10.), (1., 5.), (2., 11.), 1, (true, false, true));
+// a clipping segment entirely left of the subject, below another clipping segment that reaches over it
+sweep_h!(sweep_early_exit_clip_left, (0., 10.), (-5., -1.), (-6., 11.), 1, (true, false, false));
 // bottom and top end before the middle one: removals without two neighbours
 sweep_h!(sweep_protocol_mid_last, (0., 4.), (1., 9.), (2., 6.), 0);
 // inserted between two present segments
